@@ -554,3 +554,49 @@ def run(ck, prog):
     _run_c16(ck, prog)
     builders(ck, prog)
     ck.floor("E2-provenance", 2)
+
+
+def take_is_gather(ck, prog):
+    """BaseVector::take / BaseMatrix::take are the trait-default gather loops (result[i] = self[index[i]]) and the built-in
+    types do not override them: 'each target still attached to its own row' rests on both takes using the same gather"""
+    rule = "E8-by-construction"
+    for trait, selfs in (("linalg::BaseVector", ("std::vec::Vec",)), ("linalg::BaseMatrix", ("linalg::naive::dense_matrix::DenseMatrix",))):
+        inst = f"{trait.split('::')[-1]}::take is the default gather loop, not overridden by the built-in type"
+        d = prog.bodies.get(f"{trait}::take")
+        ov = [b.impl_self for b in prog.bodies.values() if b.impl_trait == trait and b.name == "take" and b.kind != "Closure"
+              and (b.impl_self or "").startswith(selfs)]
+        if not d:
+            ck.violation(rule, inst, f"{trait}::take", "", expected="trait default body exists", found="anchor vanished")
+            continue
+        res = Resolver(d)
+        problems = []
+        if ov:
+            problems.append(f"overridden for {ov}")
+        sets = [(bb, t) for bb, t in d.calls() if t.get("f") and t["f"]["path"].endswith(("BaseVector::set", "BaseMatrix::set"))]
+        if not sets:
+            problems.append("no element store found")
+        for bb, t in sets:
+            a = [res.operand(x) for x in t["args"]]
+            val = a[-1]
+            gets = [s for s in subterms(val) if s[0] == "call" and s[1].endswith(("BaseVector::get", "BaseMatrix::get"))]
+            en = calls_in(val, "Iterator::enumerate")
+            ok = bool(gets) and bool(en) and any(x[0] == "arg" and x[1] == 2 for x in subterms(peel(en[0][2][0]))) and val == gets[0]
+            # the element read is addressed by the index VALUE (item.1), the store by the item COUNTER (item.0)
+            reads_idx = any(s[0] == "field" and s[2] == "1" for g in gets for s in subterms(g))
+            writes_cnt = any(s[0] == "field" and s[2] == "0" for x in a[1:-1] for s in subterms(x))
+            if not (ok and reads_idx and writes_cnt):
+                problems.append(f"store at {d.where(bb)} is not result[counter] = self[index value]: `{render(val)[:80]}`")
+        if problems:
+            ck.violation(rule, inst, d.path, f"{d.loc[0]}:{d.loc[1]}", expected="result[i] = self[index[i]] for (i, idx) in index.iter().enumerate(), default body used by the built-in type",
+                         found="; ".join(problems))
+        else:
+            ck.ok(rule, inst, d.path, f"{d.loc[0]}:{d.loc[1]}", f"{len(sets)} gather store(s)")
+
+
+_run_c16b = run
+
+
+def run(ck, prog):
+    _run_c16b(ck, prog)
+    take_is_gather(ck, prog)
+    ck.floor("E8-by-construction", 2)
